@@ -74,7 +74,10 @@ func generateNet(r *simrt.Rand, cfg config) simrt.Case {
 		case 4:
 			if crashes < 2 {
 				crashes++
-				acts = append(acts, simrt.Action{K: "netcrash", N: r.Intn(cfg.Replicas), A: int64(r.Intn(20))})
+				// the process dies between two slices of simulated time (A = 0): where exactly an armed crash would
+				// land among the writes of concurrently running goroutines is not decided by the simulator here, and
+				// crash points inside a commit are the subject of C06/C07, which enumerate them
+				acts = append(acts, simrt.Action{K: "netcrash", N: r.Intn(cfg.Replicas)})
 			}
 		case 5:
 			acts = append(acts, simrt.Action{K: "netrestart", N: r.Intn(cfg.Replicas)})
@@ -226,6 +229,10 @@ func (w *world) runNet(c simrt.Case) {
 	heights := func() []int64 {
 		var hs []int64
 		for _, nd := range nw.nodes {
+			if nd.Inc == nil || nd.Inc.Store == nil {
+				hs = append(hs, -1) // did not come up
+				continue
+			}
 			hs = append(hs, nd.Inc.Store.Height())
 		}
 		return hs
@@ -303,6 +310,9 @@ func (w *world) runNet(c simrt.Case) {
 					nw.startNode(i)
 				}
 			}
+			if len(out.Violations) > 0 {
+				break // a node did not come up from its disk (reported)
+			}
 			mesh()
 			before := heights()
 			var maxb int64
@@ -369,10 +379,13 @@ func (w *world) runNet(c simrt.Case) {
 	}
 	// state agreement at the common height
 	var common int64 = 1 << 60
-	for _, nd := range nw.nodes {
-		if nd.Inc.Alive() && nd.Inc.State.LastBlockHeight < common {
-			common = nd.Inc.State.LastBlockHeight
+	for _, h := range heights() {
+		if h >= 0 && h < common {
+			common = h
 		}
+	}
+	if common == 1<<60 {
+		common = 0
 	}
 	out.Probes["net-blocks-committed"] += int(common)
 	nf := 0
@@ -390,7 +403,9 @@ func (w *world) runNet(c simrt.Case) {
 	}
 	for _, nd := range nw.nodes {
 		inc := nd.Inc
-		w.reg.GoAs(inc, "net-stop", func() { inc.Sw.Stop() })
+		if inc.Sw != nil {
+			w.reg.GoAs(inc, "net-stop", func() { inc.Sw.Stop() })
+		}
 	}
 	synctest.Wait()
 	for _, nd := range nw.nodes {
